@@ -114,7 +114,7 @@ func (s *Schema) AddType(name string, sc jschema.Schema) (err error) {
 			return fmt.Errorf("load added type: %w", err)
 		}
 
-		s.inner.AddNamedType(name, typ.inner, s.file, 0)
+		s.inner.AddNamedType(name, typ.inner, typ.file, 0)
 	case *regex.Schema:
 		pattern, err := typ.Pattern()
 		if err != nil {
@@ -131,7 +131,7 @@ func (s *Schema) AddType(name string, sc jschema.Schema) (err error) {
 			return fmt.Errorf("load added type: %w", err)
 		}
 
-		s.inner.AddNamedType(name, typSc.inner, s.file, 0)
+		s.inner.AddNamedType(name, typSc.inner, typSc.file, 0)
 
 	default:
 		return fmt.Errorf("schema should be JSight or Regex schema, but %T given", sc)
